@@ -173,6 +173,28 @@ def util_fns():
     return dict(scale=scale, sfw_scale=sfw_scale, merge=merge, merge_pred=merge_pred)
 
 
+def iter_loop_hook(code, elem):
+    """iterator.loop(samples, feature, callback): the lambda is not translated; the overload that was resolved (by the
+    std::function parameter type of the callee) must be the one for the expected kind of feature values"""
+    from cxx2c import Unsupported
+
+    def h(P, n):
+        if n.get('kind') != 'CXXMemberCallExpr':
+            return None
+        me = n['inner'][0]
+        if me.get('kind') != 'MemberExpr' or me.get('name') != 'loop' or 'select_iterator_t' not in me['inner'][0]['type'].get('qualType', ''):
+            return None
+        args = n['inner'][1:]
+        if len(args) != 3:
+            raise Unsupported('select_iterator_t::loop with an unexpected number of arguments')
+        cb = args[2]['type'].get('desugaredQualType', args[2]['type'].get('qualType', ''))
+        if f'tensor_carray_storage_t, {elem}>' not in cb:
+            raise Unsupported(f'select_iterator_t::loop overload for callback type {cb!r}, expected values of <{elem}>')
+        P.note('select_iterator_t::loop(samples, feature, callback) -> nv_iter_loop')
+        return f'nv_iter_loop({P.addr(me["inner"][0])}, {P.expr(args[0])}, {P.expr(args[1])}, {code})'
+    return h
+
+
 def targs(*want):
     return lambda d: astload.template_args(d) == list(want)
 
@@ -183,6 +205,16 @@ def build(tier):
                            select=targs(f'nvdrv::op_{kind}_t'), lambda_index=0, captures=True, types=TYPES,
                            calls=LOOP_CALLS, members=LOOP_MEMBERS)
     targets = [Target(f'loop_{k}_body', [loop(k)], LH) for k in ('scalar', 'sclass', 'mclass')]
+    # the callback type (std::function<void(tensor_size_t, size_t, X_cmap_t)>) of the chosen iterator.loop overload says
+    # which kind of feature values the callback is run on
+    KIND = {'scalar': (0, 'double, 1'), 'sclass': (1, 'int, 1'), 'mclass': (2, 'signed char, 2')}
+    for k, (code, elem) in KIND.items():
+        outer = Fn(f'loop_{k}', DRV, f'loop_{k}', flt=f'nano::wlearner::loop_{k}', select=targs(f'nvdrv::op_{k}_t'),
+                   kinds=('FunctionDecl',), types=TYPES,
+                   calls=[(r'^ctor\|nano::select_iterator_t\|', 'nv_iter_make({&0})'),
+                          (r'^ctor\|nano::tensor_t<nano::tensor_carray_storage_t, long, 1>\|', '{0}')],
+                   hooks=[iter_loop_hook(code, elem)])
+        targets.append(Target(f'loop_{k}', [outer], LH))
     SH = 'specs/C10/stump.h'
     f = stump_fns()
     targets.append(Target('stump_do_predict', [f['do_predict'], f['predict_lambda'], f['feature']], SH))
@@ -193,15 +225,52 @@ def build(tier):
     TH = 'specs/C10/table.h'
     targets.append(Target('table_do_predict', table_fns('predict'), TH))
     targets.append(Target('table_do_split', table_fns('split'), TH))
+    ftypes = [(r'^nano::hashes_t$|tensor_t<nano::tensor_vector_storage_t, unsigned long, 1>', 'struct nv_t1u'),
+              (r'Matrix<unsigned long, -1, 1, 0.*>::Scalar$', 'uint64_t')]
+    fk = dict(types=ftypes, uf_float=False, kinds=('FunctionDecl',),
+              calls=[(r'^hash\|uint64_t \(const int &\)', 'hash_sclass'), (r'^lower_bound\|', 'nv_lower_bound_u64({0}, {1}, {2})'),
+                     (r'^distance\|', '({1} - {0})')],
+              members=[(r'^begin\|nano::tensor_t<nano::tensor_vector_storage_t, unsigned long, 1>', '{self}->p'),
+                       (r'^end\|nano::tensor_t<nano::tensor_vector_storage_t, unsigned long, 1>', '({self}->p + {self}->n)')])
+    find = Fn('find_sclass', DRV, 'find', flt='nano::find', select=targs('int'), **fk)
+    hash_ = Fn('hash_sclass', DRV, 'hash', flt='nano::hash', select=targs('int'), **fk)
+    targets.append(Target('find_sclass', [find, hash_], 'specs/C10/find.h'))
     UH = 'specs/C10/util.h'
     targets.append(Target('wl_scale', [util_fns()['scale']], UH))
     u = util_fns()
-    targets.append(Target('wl_merge', [u['merge'], u['merge_pred']], UH))
+    targets.insert(0, Target('wl_merge', [u['merge'], u['merge_pred']], UH))    # the longest proof starts first
     targets.append(Target('sfw_scale', [u['sfw_scale'], u['scale']], UH, replace=['wl_scale'], loops=0))
     return {
         'targets': targets, 'vcs': [],
-        'decided': [],
-        'not_decided': [],
-        'assumptions': [],
+        'decided': [
+            'loop_scalar / loop_sclass / loop_mclass: op(i, value) is called only for 0 <= i < samples.size(), in increasing i, only for given values (finite / >= 0 / first label >= 0), with the value of sample i, and for every given value exactly once (ghost sample position); the enclosing functions hand the given samples and feature to select_iterator_t::loop once, with the callback overload of the right value kind',
+            'stump: do_predict adds tables[value < threshold ? 0 : 1] to outputs row i exactly once for a given value and nothing for a missing one; split / do_split assign group (value < threshold ? 0 : 1) to samples(i) under the same rule with the same feature and the member threshold; cluster has dataset.samples() x 2',
+            'tables (dense, k-best, k-split, dstep share do_predict / do_split): through process<op> and its single-label / multi-label callbacks, a given value whose labeling is found at hashes position k adds tables[hash2tables[k]] to outputs row i, resp. assigns group hash2tables[k] to samples(i); missing or unknown labelings leave outputs untouched and assign no group; loop_sclass is used exactly for single-label features; cluster has tables.size<0>() groups',
+            'nano::find (single-label): result is -1 or the position of hash(value) in hashes; -1 implies the hash is absent (sorted hashes)',
+            'wlearner::scale: every row i of tables is multiplied exactly once by scale[min(i, size-1)] = the factor of group i (the single factor if size == 1), all indices in range for size in {1, rows}; single_feature_wlearner_t::scale applies it to its own tables',
+            'wlearner::merge: try_merge only through a non-null learner into an earlier slot; a slot is nulled only right after the successful try_merge that absorbed it; the learner holding the predictions of any given learner survives remove_if/erase (predicate = slot is null, whole vector, erase of exactly the returned tail); the vector does not grow',
+        ],
+        'not_decided': [
+            'minimum RSS over the hypothesis class (all do_fit functions, accumulators, criterion): optimisation over float moment sums',
+            'hinge / affine predict and split (Eigen expressions over the feature value), dtree, depth-1 tree == stump',
+            'do_try_merge (tables added element-wise) and table/affine try_merge (dynamic_cast): the sum-preservation of merge rests on the assumed try_merge contract',
+            'numeric value of the scaled / added coefficients (Eigen += and *= are recorded, not computed)',
+            'nano::find for multi-label values (detail::hash over the row) stays an assumed contract',
+            'no native replay driver (the check is green; counterexamples would be (value, threshold, index) tuples)',
+        ],
+        'assumptions': [
+            'select_iterator_t::loop(samples, feature, callback) calls callback(feature, 0, values) once with one value per sample, of the kind of the chosen overload (src/dataset/iterator.cpp)',
+            'Eigen: tensor.vector(k) / array(k) is the k-th slice along the first dimension; `a += b` adds b to a; `a *= s` multiplies a by s (recorded as ghost events, index k asserted in [0, size<0>()))',
+            'cluster_t::assign(sample, group) requires 0 <= sample < samples() and 0 <= group < groups() (its own assert, checked as obligations) and records the group',
+            'mclass feature tensor abstracted to its first column plus row identity (other columns havoc)',
+            'representation invariant of a fitted stump / table: tables has 2 rows (stump); hashes.size() == hash2tables.size() and every hash2tables entry addresses a row of tables (established by the fit functions, not re-validated by read())',
+            'callers: outputs has one row per sample (learner_t::predict asserts it); samples index valid dataset samples; scale.size() in {1, tables.size<0>()} (the function\'s own assert)',
+            'nano::find for multi-label values returns -1 or a position in [0, hashes.size()) and is a pure function of (hashes, value)',
+            'std::lower_bound returns the partition point of a sorted range (ghost index); hashes are sorted (make_hashes)',
+            'wlearner_t::try_merge(other): false for a null other; on success *this is equivalent with the sum of the two (include/nano/wlearner.h)',
+            'std::remove_if keeps exactly the elements for which the predicate is false, in order, at positions not after their old ones; vector::erase(first, end()) truncates at first',
+            'single_feature_wlearner_t::vector(k) is m_tables.vector(k), tables() is m_tables (inline accessors in single.h); feature() is extracted',
+            'lambda captures by reference denote the enclosing function\'s variables of the same name (closure objects are modelled as explicit argument lists / capture structs)',
+        ],
         'trusted': [],
     }
